@@ -97,6 +97,30 @@ Example c13_nonvacuous :
   esc_string [97; 34; 10; 92] = [34; 97; 92; 34; 92; 110; 92; 92; 34].
 Proof. vm_compute. repeat split. Qed.
 
+(* ---- the protobuf half: "a protobuf that parses back to the same message" ----------------------------------
+   Spec/PbWire.v is a PARSER of the protobuf wire grammar (varint tags, wire types 0 and 2), written without
+   reference to the encoder, and the reading of the parsed fields against the schema of pb/flow.proto (packed
+   repeated varints).  For EVERY message whose columns hold the kinds of value the schema gives them (numbers below
+   2^64, bytes below 256, custom fields with numbers of their own): the bytes the binary driver writes parse, and
+   what the parsed fields say is exactly the message's content -- Msg.show_msg, the canonical observation all the
+   comparisons with the implementation use -- column by column in field-number order, then the custom fields. *)
+From GF Require Import Spec.PbWire Proofs.PbP.
+Theorem c13_protobuf_parses_back : forall m,
+  msg_ok m = true ->
+  exists items,
+    parse_wire (S (length (pb_encode m))) (pb_encode m) = Some items /\
+    obs_items items = Some (tl (show_msg m)).
+Proof. exact pb_roundtrip. Qed.
+Print Assumptions c13_protobuf_parses_back.
+
+(* non-vacuity: every message the pipe emits for the first generated mixed histories (v5, v9, IPFIX, sFlow) is in
+   the theorem's domain, and parsing its bytes inside Coq gives its content (evaluated in Proofs/PbEx.v) *)
+From GF Require Import Base.Gen Model.Pipe Model.ProdNF Drivers.D13 Proofs.PbEx.
+Example c13_protobuf_nonvacuous :
+  let ms := flat_map (fun i => run_msgs PKFlow empty_prodcfg init_pstate (gcase gen_mixed 1 i)) [0; 1; 2; 3; 4; 5] in
+  (20 <=? lenN ms) && forallb msg_ok ms && forallb parses_back ms = true.
+Proof. exact protobuf_nonvacuous. Qed.
+
 (* ---- ANY formatter configuration (Model/Format.v: field list and order, renames, every registered renderer
    on every kind of column, virtual fields, custom protobuf fields scalar / array; the model is compared byte
    for byte with MarshalJSON / MarshalText under generated mapping files on every run) ---- *)
